@@ -28,4 +28,14 @@ theorem difference_self (x : Int) : SeqAsm.difference x x = 0 := by
   dsimp only
   split <;> (try split) <;> omega
 
+theorem wrap_add_valid (s n : Int) : wrapArith.add s n ≠ invalidSeq := by
+  show SeqAsm.add s n ≠ SeqAsm.invalidSequence
+  have := (add_mod s n).2.1
+  unfold SeqAsm.invalidSequence
+  omega
+
+theorem wrap_diff_self (x : Int) : wrapArith.diff x x ≤ 0 := by
+  show SeqAsm.difference x x ≤ 0
+  rw [difference_self]; exact Int.le_refl 0
+
 end Gp.Asm
